@@ -30,9 +30,16 @@ CFG = dict(
                "at Coq's primitive float with Flocq's IEEE addition): whenever the computed sum is finite, |vsum_float xs - sum of "
                "the valid elements| <= ((1+u)^n - 1) * sum |valid elements| (u = 2^-53, n valid elements; <= n u (1+u)^n), the float "
                "and option-R models are null together, a finite result certifies finite inputs, and on dyadic-grid inputs (the "
-               "generated k/4 values) no addition rounds: model(float) = model(option R). Still partial: no rounding bound for "
-               "mean / var / skew / kurt / cov / corr (division, products, cancellation) — there rounding remains the comparator "
-               "tolerance. "
+               "generated k/4 values) no addition rounds: model(float) = model(option R). The one-pass MEAN likewise (Proofs/RoundMean.v, "
+               "(R5)-(R8); Flocq's IEEE division, which can underflow): whenever the computed mean is finite and n < 2^53, "
+               "|vmean_float xs - mean of the valid elements| <= ((1+u)^(n+1) - 1) * (sum |valid|) / n + eta with eta = 2^-1075 "
+               "(no eta when the quotient is in the normal range; an example shows eta cannot be dropped), the option-R model is "
+               "non-null and within the bound, a finite mean certifies n >= 1 and finite inputs (these theorems additionally rest on "
+               "the standard library's FloatAxioms.div_spec / of_uint63_spec). Still partial: no rounding bound for "
+               "var / std / skew / kurt / cov / corr — notes/C11.md (X19) states which bounds are provable (accumulator errors, "
+               "exactness on a grid, an ABSOLUTE bound for the population variance) and which are false without the condition "
+               "number (relative bounds for the closed forms under cancellation, stability of the EPS branch); there rounding "
+               "remains the comparator tolerance. "
                "The model is tied to the code by ~100k differential cases per run through every iterator source.",
     level_note="Trusted: Coq kernel + Reals axioms for the option-R theorems (integer / order theorems are axiom-free); the "
                "hand-written model; binary64 rounding is outside the theorems (except the one-pass sum, (R1)-(R4)) and absorbed by the tolerance (generated values "
